@@ -489,7 +489,52 @@ def build_expr(r, idx, op, args, expected):
     return "call", pre, call, expected
 
 
+EDGES = [2 ** 63 - 1, -2 ** 63, 2 ** 63, -2 ** 63 - 1, 2 ** 62, -2 ** 62, 2 ** 62 - 1, 2 ** 64, -2 ** 64, 2 ** 31, -2 ** 31, 2 ** 32]
+
+
+def gen_walk(r, idx):
+    """A self tail loop that walks an accumulator across a representation boundary with a literal (or
+    variable) step: acc <- acc op STEP, k times, starting j<k steps before the edge."""
+    op = r.choice(["+", "-", "+", "-", "*"])
+    edge = r.choice(EDGES)
+    f = "w%d" % idx
+    k = r.randint(2, 9)
+    j = r.randint(0, k - 1)
+    if op == "*":
+        step = r.choice([2, 3, -2, -1, 4, 10])
+        start = edge // (abs(step) ** max(j, 1)) + r.randint(-1, 1)
+        if start == 0:
+            start = 1
+        k = min(k, 5)
+    else:
+        step = r.choice([1, 1, 2, 3, 7, 100, -1, -2, 2 ** 31, 2 ** 62])
+        # direction of travel
+        towards = 1 if ((op == "+") == (step > 0)) else -1
+        start = edge - towards * abs(step) * j + r.choice([0, 0, 1, -1])
+    form = r.choice(["litR", "litR", "litL", "var", "acc-second"])
+    S = lit(step)
+    if form == "litL" and op != "-":
+        body, params, call = "(%s %s acc)" % (op, S), "i acc", "(%s %d %s)" % (f, k, lit(start))
+        pre = "(define (%s i acc) (if (= i 0) acc (%s (- i 1) %s)))" % (f, f, body)
+    elif form == "var":
+        pre = "(define (%s i acc step) (if (= i 0) acc (%s (- i 1) (%s acc step) step)))" % (f, f, op)
+        call = "(%s %d %s %s)" % (f, k, lit(start), S)
+    elif form == "acc-second":
+        pre = "(define (%s acc i) (if (= i 0) acc (%s (%s acc %s) (- i 1))))" % (f, f, op, S)
+        call = "(%s %s %d)" % (f, lit(start), k)
+    else:
+        pre = "(define (%s i acc) (if (= i 0) acc (%s (- i 1) (%s acc %s))))" % (f, f, op, S)
+        call = "(%s %d %s)" % (f, k, lit(start))
+    acc = start
+    for _ in range(k):
+        acc = fold_arith(op, [acc, step])
+    return {"op": op, "shape": "boundary-walk/" + form, "pre": [pre], "expr": call, "expected": canon(acc),
+            "classes": arg_classes([start, step]), "split": r.random() < 0.5}
+
+
 def gen_case(r, idx):
+    if r.random() < 0.15:
+        return gen_walk(r, idx)
     ops = [o for o, _ in OPS]
     w = [OP_WEIGHT.get(o, 1) for o in ops]
     for _ in range(50):
@@ -525,7 +570,7 @@ def arg_classes(args):
     return tuple(out)
 
 
-CONFIGS = [("default", {}), ("nojit", {"STEEL_JIT": "false"})]
+CONFIGS = [("default", {}), ("nojit", {"STEEL_JIT": "false"}), ("module", {"VERIF_MODULE_MODE": "1"})]
 
 
 
@@ -592,18 +637,26 @@ def run_items(items, env, per=150, tag="c10"):
     their own (then the call is a real call of a separately compiled - natively compiled - function).
     Returns outcomes aligned with items: the canonical value string, or ('fail', description)."""
     units = []
+    module = bool(env and env.get("VERIF_MODULE_MODE"))
+    env = {k: v for k, v in (env or {}).items() if k != "VERIF_MODULE_MODE"}
     for it in items:
-        if it.get("split") and it["pre"]:
+        if module:
+            # the way the `steel` command runs a script: the text is a module that is required
+            units.append("\n".join(it["pre"]) + "\n(verif-emit " + it["expr"] + ")")
+        elif it.get("split") and it["pre"]:
             units.append(["\n".join(it["pre"]), it["expr"]])
         else:
             units.append("\n".join(it["pre"]) + "\n" + it["expr"])
-    outs = core.run_units(units, env=env, per=per, tag=tag, timeout_ms=120000)
+    outs = core.run_units(units, env=env, per=per, tag=tag, timeout_ms=120000,
+                          case_opts={"as_module": True} if module else None)
     res = [None] * len(items)
     for k, o in enumerate(outs):
         if o is None:
             continue
         if "died" in o:
             res[k] = ("fail", "process %s" % o["died"])
+        elif o.get("ok") and module:
+            res[k] = o["emits"][-1] if o.get("emits") else "void"
         elif o.get("ok"):
             res[k] = o["vals"][-1] if o["vals"] else "void"
         elif o.get("panic"):
@@ -631,6 +684,11 @@ def main(tier):
         outs = run_items(items, env)
         suspects = {}
         for it, g in zip(items, outs):
+            if cname == "module" and ("(- 0.0)" in it["expr"] or any("(- 0.0)" in p for p in it["pre"])):
+                # in module mode a negative-zero *operand* is already altered at compile time (finding
+                # C10-F13); such items say nothing about the operation under test
+                rep.add("module_mode_items_with_negative_zero_operand_skipped")
+                continue
             if g is None:
                 rep.add("not_run")
                 continue
@@ -645,6 +703,8 @@ def main(tier):
                                 "observed": g, "config": cname}, cap=10)
                 continue
             sig = "C10 %s %s" % (it["op"], classify(it["expected"], g))
+            if cname == "module" and sig.endswith("sign-of-zero"):
+                sig = "C10 module mode: sign-of-zero"
             suspects.setdefault(sig, []).append(it)
         rep.add("mismatches_before_confirmation", sum(len(v) for v in suspects.values()))
         # confirm (at most 3 per signature) alone, each on a fresh engine in its own process
@@ -655,6 +715,8 @@ def main(tier):
             if g == it["expected"] or g is None:
                 continue
             sig2 = "C10 %s %s" % (it["op"], classify(it["expected"], g))
+            if cname == "module" and sig2.endswith("sign-of-zero"):
+                sig2 = "C10 module mode: sign-of-zero"
             if sig2 in confirmed:
                 continue
             confirmed.add(sig2)
@@ -663,7 +725,7 @@ def main(tier):
                 cname, it["shape"], ",".join(it["classes"]), it["expr"], it["pre"], it["expected"], got),
                 {"config": env, "pre": it["pre"], "expr": it["expr"], "expected": it["expected"], "got": got})
         for sig in suspects:
-            if not any(c.split(" ")[1] == sig.split(" ")[1] for c in confirmed):
+            if not any(c.split(" ")[1] == sig.split(" ")[1] for c in confirmed) and sig not in confirmed:
                 rep.inconclusive_note("mismatch not reproduced alone: %s" % sig)
     rep.note("by_shape", seen_shapes)
     rep.note("by_op", seen_ops)
